@@ -1,4 +1,4 @@
-//@UNIT props=C13,C03 mode=extract
+//@UNIT props=C13,C03,C01 mode=extract
 // Extract unit: VisualAttributes::update_history (src/trackers/visual_sort/track_attributes.rs).
 // Why extract and not in place: SortAttributesOptions is declared in another module with private
 // fields, which makes it opaque to Verus inside visual_sort::track_attributes (even for the exec
@@ -52,7 +52,7 @@ impl VisualAttributes {
            final(self).observed_features@ == if h > 0 && o.len() > h { o.subrange(1, o.len() as int) } else { o } }),
         final(self).observed_boxes@.len() == final(self).predicted_boxes@.len() //# C13/visual.history.equal_lengths
             && final(self).observed_boxes@.len() == final(self).observed_features@.len(),
-        final(self).observed_boxes@.last() == *observation_bbox && final(self).predicted_boxes@.last() == *predicted_bbox //# C13/visual.history.newest_is_last
+        final(self).observed_boxes@.last() == *observation_bbox && final(self).predicted_boxes@.last() == *predicted_bbox //# C01,C13/visual.history.newest_is_last
             && final(self).observed_features@.last() == observation_feature,
         old(self).opts.history_length > 0 && old(self).observed_boxes@.len() <= old(self).opts.history_length //# C13/visual.history.bounded
             ==> final(self).observed_boxes@.len() <= old(self).opts.history_length,
